@@ -135,8 +135,19 @@ def make_recorders(case, plan, log, ids, repl_objs):
     m = case["m"]
     inst = {v: (Disp if (case["disp"] and v % 2 == 1) else Plain)(v) for v in set(case["vis"])}
     if m == 1:
-        return inst[case["vis"][0]]
-    return V.ChainedVisitor(*[inst[v] for v in case["vis"]])
+        return inst[case["vis"][0]], None
+    # gamma: in every second chain a member that takes no action implements ONLY `leave` (it inherits the base class' enter):
+    # it still has to be left, in reverse order, for every node the chain leaves
+    lo = None
+    idle = sorted(v for v in set(case["vis"]) if not any(vv == v for (_, _, vv) in plan))
+    if idle and len(plan) % 2 == 0:
+        lo = idle[-1]
+
+        class LeaveOnly(V.ASTVisitor):
+            def leave(self, node):
+                log.append(["leave", ids.get(id(node), -1), lo])
+        inst[lo] = LeaveOnly()
+    return V.ChainedVisitor(*[inst[v] for v in case["vis"]]), lo
 
 
 def _snake(name):
@@ -163,16 +174,20 @@ def run_case(case, plan):
             keep += robjs
             repl_objs[i + 1] = ro
     log = []
-    vis = make_recorders(case, plan, log, ids, repl_objs)
+    vis, lo = make_recorders(case, plan, log, ids, repl_objs)
     try:
         out = vis.visit(root)
     except Exception as e:
         return "exc", repr(e), log
     if out is None:
-        return "ok", log, []
-    rn, robjs = node_table(out)
+        return "ok", log, [], lo
+    try:
+        rn, robjs = node_table(out)
+    except Exception as e:
+        # e.g. a None left behind in a child list by a broken deletion: a malformed RESULT is a divergence, not a harness failure
+        return "exc", "resulting tree is malformed: %r" % (e,), log
     res = [ids.get(id(o), -1) for o in robjs]
-    return "ok", log, res
+    return "ok", log, res, lo
 
 
 def generate(chk, cases, max_edit, max_pair, label):
@@ -241,7 +256,9 @@ def _worker(args):
         if r[0] == "exc":
             out.setdefault(("C18", "visit/raises/%s/%s" % (r[1].split("(")[0], acts)), ["visitor raises", dict(wit, error=r[1])])
             continue
-        _, log, res = r
+        _, log, res, lo = r
+        if lo is not None:      # the leave-only member has no enter events
+            b = dict(b, ev=[e for e in b["ev"] if not (e[0] == "enter" and e[2] == lo)], evd=[e for e in b["evd"] if not (e[0] == "enter" and e[2] == lo)])
         if log == b["ev"] and res == b["res"]:
             continue
         if log == b["evd"] and res == b["resd"]:
